@@ -32,6 +32,8 @@ def run_one(sid):
 
 def main():
     sids = sorted(s for s in os.listdir(os.path.join(V, "seeded")) if os.path.isdir(os.path.join(V, "seeded", s)))
+    obsolete = [s for s in sids if json.load(open(os.path.join(V, "seeded", s, "meta.json"))).get("obsolete")]
+    sids = [s for s in sids if s not in obsolete]
     if len(sys.argv) > 1:
         sids = [s for s in sids if any(a in s for a in sys.argv[1:])]
     rows = []
@@ -52,6 +54,8 @@ def main():
             f.write(f"| {sid} | {str(meta.get('title',''))[:90]} | {str(meta.get('needs',''))[:200].replace('|','/')} | {by.replace('|','/')} |\n")
         n = sum(1 for r in rows if r[3])
         f.write(f"\n{n} of {len(rows)} detected.\n")
+        for o in obsolete:
+            f.write(f"\n{o}: not run — " + json.load(open(os.path.join(V, "seeded", o, "meta.json")))["obsolete"] + "\n")
     # machine-readable detection summary back into each meta.json
     for sid, meta, res, det in rows:
         meta["detected_quick_seed1"] = det
